@@ -151,10 +151,12 @@ def run_unit(u):
                 pumps = {prefix[-k:] for k in range(1, 9) if len(prefix) >= k}
                 pumps.update(rng.sample(ATOMS, 30) if quick else ATOMS)
                 # composite pumps: two atoms in a row (an escape followed by a separator, a value followed by a comma, ...)
-                for _ in range(16 if quick else 60):
+                for _ in range(16 if quick else 300):
                     pumps.add(rng.choice(ATOMS) + rng.choice(SEPS))
                     if rng.random() < .5:
                         pumps.add(rng.choice(ATOMS) + rng.choice(ATOMS))
+                    if not quick and rng.random() < .3:
+                        pumps.add(rng.choice(ATOMS) + rng.choice(SEPS) + rng.choice(ATOMS))
                 for pump in pumps:
                     for term in (rng.sample(TERMS, 5) if quick else TERMS):
                         fams.append((prefix, pump, term))
@@ -178,7 +180,7 @@ def run_unit(u):
         for t, prefix, pump, term in times:
             if t > med:
                 sigs.add(sig(prefix, pump, term))
-        chosen = times[:16 if quick else 40] + rng.sample(times, min(len(times), 24 if quick else 80))
+        chosen = times[:16 if quick else 60] + rng.sample(times, min(len(times), 24 if quick else 200))
         for t, prefix, pump, term in chosen:
             if len(viol) >= 6:
                 break
